@@ -28,15 +28,6 @@ Lemma imap_lengths {A} (g : nat -> A -> list Z) (size : A -> nat) :
   (forall m x, length (g m x) = size x) -> forall l i, map (@length Z) (imap g i l) = map size l.
 Proof. intros H. induction l as [|x l IH]; intros i; cbn [imap map]; [reflexivity|]. rewrite H, IH. reflexivity. Qed.
 
-Lemma enc_member_length u m sh f0 f1 f2 f3 : length (enc_member u m sh f0 f1 f2 f3) = msize sh.
-Proof.
-  unfold enc_member. destruct (Nat.eqb_spec (msize sh) 1) as [->|Hne]; destruct u; cbn [andb negb length];
-    try reflexivity; rewrite map_length, seq_length; auto.
-Qed.
-
-Lemma encode_ok k f0 f1 f2 f3 : obs_ok (mshapes k) (encode k f0 f1 f2 f3).
-Proof. unfold obs_ok, encode. apply imap_lengths. intros m sh. apply enc_member_length. Qed.
-
 Lemma placeholder_ok k : obs_ok (mshapes k) (placeholder_obs k).
 Proof. unfold obs_ok, placeholder_obs. apply imap_lengths. intros m sh. apply repeat_length. Qed.
 
@@ -46,60 +37,6 @@ Lemma fill_obs_wf k agents (o : dict obs_t) :
 Proof.
   intros H a Ha. rewrite (fill_lookup agents _ o a Ha). eexists; split; [reflexivity|].
   destruct (lookup a o) eqn:E; [eauto | apply placeholder_ok].
-Qed.
-
-Lemma observed_ok E (g : nat -> sstate * Z) L a ob :
-  lookup a (map (fun b => (b, observe E (fst (g b)) b (snd (g b)))) L) = Some ob -> obs_ok (mshapes (kind E)) ob.
-Proof.
-  rewrite (lookup_map_key (fun b => observe E (fst (g b)) b (snd (g b)))).
-  destruct (existsb (Nat.eqb a) L); [|discriminate]. intros [= <-]. apply encode_ok.
-Qed.
-
-Lemma reset_obs_ok E s seed a ob :
-  lookup a (fst (snd (env_reset E s seed))) = Some ob -> obs_ok (mshapes (kind E)) ob.
-Proof.
-  unfold env_reset. cbn [fst snd live].
-  set (s' := {| base := _; ord := _; tm := _; live := _ |}).
-  apply (observed_ok E (fun _ => (s', 0%Z))).
-Qed.
-
-Lemma raw_obs_ok E s acts a ob :
-  lookup a (tobs (snd (raw_step E s acts))) = Some ob -> obs_ok (mshapes (kind E)) ob.
-Proof.
-  unfold raw_step. cbn [fst snd tobs].
-  set (s1 := {| base := _; ord := _; tm := S (tm s); live := live s |}).
-  apply (observed_ok E (fun b => (s1, nth b acts 0%Z))).
-Qed.
-
-Lemma single_obs_ok E s acts a ob :
-  lookup a (tobs (snd (single_step E s acts))) = Some ob -> obs_ok (mshapes (kind E)) ob.
-Proof.
-  unfold single_step. pose proof (raw_obs_ok E s acts a ob) as Hr.
-  destruct (raw_step E s acts) as [s1 tr]. cbn [snd] in Hr.
-  destruct (no_agent_left s1); auto.
-  pose proof (reset_obs_ok E s1 None a ob) as Hq.
-  destruct (env_reset E s1 None) as [s2 [o i]]. cbn [fst snd tobs] in *. auto.
-Qed.
-
-Lemma worker_obs_wf E agents s acts :
-  wf_obs (kind E) agents (tobs (snd (worker_step E agents s acts))).
-Proof.
-  rewrite worker_refines_single_lemma. cbn [snd process_transition tobs].
-  apply fill_obs_wf. intros a ob. apply single_obs_ok.
-Qed.
-
-Lemma worker_reset_obs_wf E agents s seed :
-  wf_obs (kind E) agents (fst (snd (worker_reset E agents s seed))).
-Proof.
-  unfold worker_reset. pose proof (fun a ob => reset_obs_ok E s seed a ob) as Hq.
-  destruct (env_reset E s seed) as [s' [o i]]. cbn [fst snd] in *.
-  apply fill_obs_wf. auto.
-Qed.
-
-(* ------------------------------------------------------------------ what a worker sends as info *)
-Lemma info_of_nodup s a b : NoDup (keys (info_of s a b)).
-Proof.
-  destruct b; cbn; repeat constructor; cbn; intuition discriminate.
 Qed.
 
 Lemma fill_info_wf agents (inf : dict info_t) :
@@ -113,86 +50,12 @@ Proof.
     + rewrite (fill_lookup_out agents _ inf a Ha) in Hl. discriminate.
 Qed.
 
-Lemma infos_nodup (g : nat -> sstate * bool) L a d :
-  lookup a (map (fun b => (b, info_of (fst (g b)) b (snd (g b)))) L) = Some d -> NoDup (keys d).
-Proof.
-  rewrite (lookup_map_key (fun b => info_of (fst (g b)) b (snd (g b)))).
-  destruct (existsb (Nat.eqb a) L); [|discriminate]. intros [= <-]. apply info_of_nodup.
-Qed.
-
-Lemma single_info_nodup E s acts a d :
-  lookup a (tinfo (snd (single_step E s acts))) = Some d -> NoDup (keys d).
-Proof.
-  unfold single_step, raw_step.
-  set (s1 := {| base := base s; ord := ord s; tm := S (tm s); live := live s |}).
-  match goal with |- context[no_agent_left ?x] => destruct (no_agent_left x) end.
-  - unfold env_reset. cbn [fst snd tinfo live].
-    match goal with |- context[info_of ?st _ true] => apply (infos_nodup (fun _ => (st, true))) end.
-  - cbn [snd tinfo]. apply (infos_nodup (fun _ => (s1, false))).
-Qed.
-
-Lemma worker_info_wf E agents s acts :
-  NoDup agents -> info_wf (tinfo (snd (worker_step E agents s acts))).
-Proof.
-  intros Hnd. rewrite worker_refines_single_lemma. cbn [snd process_transition tinfo].
-  apply fill_info_wf; auto. intros a d. apply single_info_nodup.
-Qed.
-
-(* ------------------------------------------------------------------ the pass over the workers *)
 Definition row_spec (n : nat) (k : okind) (agents : list nat) (m mf : shm) (i0 len : nat)
            (written : nat -> option (dict obs_t)) : Prop :=
   forall a i, In a agents -> i < n ->
     row_of n k mf a i = if (i0 <=? i) && (i <? i0 + len)
                         then match written (i - i0) with Some o => get a o [] | None => [] end
                         else row_of n k m a i.
-
-Lemma workers_step_spec agents k n : forall Es i0 ss acts m rs ro mf,
-  Forall (fun E => kind E = k) Es -> length ss = length Es -> length acts = length Es ->
-  i0 + length Es <= n -> wf_mem n k agents m ->
-  workers_step agents i0 Es ss acts m = (rs, ro, mf) ->
-  wf_mem n k agents mf /\ length rs = length Es /\ length ro = length Es /\
-  (forall j E s a, nth_error Es j = Some E -> nth_error ss j = Some s -> nth_error acts j = Some a ->
-     nth_error rs j = Some (fst (worker_step E agents s a)) /\
-     nth_error ro j = Some (snd (worker_step E agents s a))) /\
-  row_spec n k agents m mf i0 (length Es) (fun j => option_map tobs (nth_error ro j)).
-Proof.
-  induction Es as [|E Es IH]; intros i0 ss acts m rs ro mf HK Ls La Hn Hm Hw.
-  - destruct ss; [|discriminate]. cbn in Hw. injection Hw as <- <- <-.
-    split; [auto|]. split; [auto|]. split; [auto|]. split.
-    + intros j E s a H. destruct j; discriminate.
-    + intros a i Ha Hi. cbn [length]. replace (i0 + 0) with i0 by lia.
-      destruct (Nat.leb_spec i0 i), (Nat.ltb_spec i i0); cbn; auto; lia.
-  - destruct ss as [|s ss]; [discriminate|]. destruct acts as [|a0 acts]; [discriminate|].
-    cbn [workers_step] in Hw.
-    destruct (worker_step E agents s a0) as [s' out] eqn:Ew.
-    destruct (workers_step agents (S i0) Es ss acts (write_shm i0 (kind E) (tobs out) m)) as [[rs' ro'] mf'] eqn:Er.
-    injection Hw as <- <- <-.
-    inversion HK as [|? ? HkE HK']; subst.
-    assert (Hout : wf_obs (kind E) agents (tobs out)).
-    { pose proof (worker_obs_wf E agents s a0) as H. rewrite Ew in H. exact H. }
-    assert (Hm' : wf_mem n (kind E) agents (write_shm i0 (kind E) (tobs out) m)).
-    { apply write_shm_wf; auto. cbn in Hn. lia. }
-    cbn [length] in *.
-    destruct (IH (S i0) ss acts _ rs' ro' mf' HK' ltac:(lia) ltac:(lia) ltac:(lia) Hm' Er)
-      as (Wf & L1 & L2 & Hnth & Hrows).
-    split; [auto|]. split; [lia|]. split; [lia|]. split.
-    + intros j E0 s0 a H H0 H1. destruct j as [|j]; cbn [nth_error] in *.
-      * injection H as <-. injection H0 as <-. injection H1 as <-. rewrite Ew. auto.
-      * apply (Hnth j E0 s0 a); auto.
-    + intros a i Ha Hi.
-      rewrite (Hrows a i Ha Hi).
-      rewrite (shm_write_read_lemma i0 i n (kind E) agents (tobs out) m a); auto; try lia.
-      destruct (Nat.leb_spec (S i0) i); destruct (Nat.ltb_spec i (S i0 + length Es)); cbn [andb].
-      * destruct (Nat.leb_spec i0 i); [|lia]. destruct (Nat.ltb_spec i (i0 + S (length Es))); [|lia]. cbn [andb].
-        replace (i - i0) with (S (i - S i0)) by lia. reflexivity.
-      * destruct (Nat.ltb_spec i (i0 + S (length Es))); [lia|]. rewrite andb_false_r.
-        destruct (Nat.eqb_spec i i0); [lia|]. reflexivity.
-      * destruct (Nat.eqb_spec i i0) as [->|Hne].
-        -- destruct (Nat.leb_spec i0 i0); [|lia]. destruct (Nat.ltb_spec i0 (i0 + S (length Es))); [|lia].
-           cbn [andb]. rewrite Nat.sub_diag. reflexivity.
-        -- destruct (Nat.leb_spec i0 i); [lia|]. reflexivity.
-      * lia.
-Qed.
 
 (* ------------------------------------------------------------------ one vectorised step *)
 (* position i of the result of vec_env.step agrees with the transition w *)
@@ -206,8 +69,9 @@ Definition agrees_at (k : okind) (agents : list nat) (i : nat) (out : vout) (w :
     mask_at (vinfos out) a i = has_agent (tinfo w) a.
 
 Definition actions_ok {X} (n : nat) (actions : dict (list X)) : Prop := n_actions actions = n.
-Definition wf_vstate (n : nat) (k : okind) (agents : list nat) (st : vstate) : Prop :=
+Definition wf_vstate {state} (n : nat) (k : okind) (agents : list nat) (st : gvstate state) : Prop :=
   length (vstates st) = n /\ wf_mem n k agents (vmem st).
+Definition seed_of (seed : option Z) (i : nat) : option Z := option_map (fun z => (z + Z.of_nat i)%Z) seed.
 
 Lemma gather_nth {X} agents (sel : trans -> dict X) d outs a i w :
   In a agents -> nth_error outs i = Some w ->
@@ -216,79 +80,6 @@ Proof.
   intros Ha Hw. unfold gather, get at 1.
   rewrite (lookup_map_In (fun a => map (fun o => get a (sel o) d) outs) agents a Ha).
   rewrite nth_error_map, Hw. reflexivity.
-Qed.
-
-Lemma vec_step_refines k agents Es st actions i E s :
-  NoDup agents -> Forall (fun E => kind E = k) Es -> wf_vstate (length Es) k agents st -> actions_ok (length Es) actions ->
-  nth_error Es i = Some E -> nth_error (vstates st) i = Some s ->
-  let acts_i := nth i (transpose_actions agents actions 0%Z) [] in
-  wf_vstate (length Es) k agents (fst (vec_step k agents Es st actions)) /\
-  nth_error (vstates (fst (vec_step k agents Es st actions))) i = Some (fst (worker_step E agents s acts_i)) /\
-  agrees_at k agents i (snd (vec_step k agents Es st actions)) (snd (worker_step E agents s acts_i)).
-Proof.
-  intros Hnd HK [Ls Hm] Ha HE Hs acts_i. unfold vec_step.
-  destruct (workers_step agents 0 Es (vstates st) (transpose_actions agents actions 0%Z) (vmem st))
-    as [[rs ro] mf] eqn:Ew.
-  assert (Lt : length (transpose_actions agents actions 0%Z) = length Es) by (rewrite transpose_length; exact Ha).
-  destruct (workers_step_spec agents k (length Es) Es 0 _ _ _ rs ro mf HK Ls Lt (le_n _) Hm Ew)
-    as (Wf & L1 & L2 & Hnth & Hrows).
-  assert (Hi : i < length Es) by (apply nth_error_Some; congruence).
-  assert (Hacts : nth_error (transpose_actions agents actions 0%Z) i = Some acts_i).
-  { apply nth_error_nth'. lia. }
-  destruct (Hnth i E s acts_i HE Hs Hacts) as [H1 H2].
-  cbn [fst snd vstates vmem]. split; [split; auto|]. split; [exact H1|].
-  assert (Hwf : Forall info_wf (map tinfo ro)).
-  { apply Forall_forall. intros x Hin. apply in_map_iff in Hin as (w & <- & Hw).
-    apply In_nth_error in Hw as [j Hj].
-    assert (Hjl : j < length Es) by (rewrite <- L2; apply nth_error_Some; congruence).
-    destruct (nth_error Es j) as [Ej|] eqn:E1; [|apply nth_error_None in E1; lia].
-    destruct (nth_error (vstates st) j) as [sj|] eqn:E2; [|apply nth_error_None in E2; lia].
-    destruct (nth_error (transpose_actions agents actions 0%Z) j) as [aj|] eqn:E3; [|apply nth_error_None in E3; lia].
-    destruct (Hnth j Ej sj aj E1 E2 E3) as [_ Hq]. rewrite Hj in Hq. injection Hq as ->.
-    apply worker_info_wf; auto. }
-  assert (Hinf : nth_error (map tinfo ro) i = Some (tinfo (snd (worker_step E agents s acts_i)))).
-  { rewrite nth_error_map, H2. reflexivity. }
-  assert (Hlen : length (map tinfo ro) <= length Es) by (rewrite map_length; lia).
-  intros a Hain. cbn [vobs vrew vterm vtrunc vinfos].
-  split; [|split; [|split; [|split; [|split]]]].
-  6:{ apply (gather_info_spec_lemma (length Es) (map tinfo ro) a 0 i _ Hlen Hwf Hinf). }
-  5:{ intros key. apply (gather_info_spec_lemma (length Es) (map tinfo ro) a key i _ Hlen Hwf Hinf). }
-  - pose proof (Hrows a i Hain Hi) as Hr. unfold row_of in Hr. rewrite Hr.
-    destruct (Nat.leb_spec 0 i); [|lia]. destruct (Nat.ltb_spec i (0 + length Es)); [|lia]. cbn [andb].
-    rewrite Nat.sub_0_r, H2. reflexivity.
-  - apply gather_nth; auto.
-  - apply gather_nth; auto.
-  - apply gather_nth; auto.
-Qed.
-
-(* ------------------------------------------------------------------ whole runs *)
-Theorem vec_refines_singles_lemma k agents Es : forall actss st i E s,
-  NoDup agents -> Forall (fun E => kind E = k) Es -> wf_vstate (length Es) k agents st ->
-  Forall (actions_ok (length Es)) actss ->
-  nth_error Es i = Some E -> nth_error (vstates st) i = Some s ->
-  let acts_i := map (fun actions => nth i (transpose_actions agents actions 0%Z) []) actss in
-  nth_error (vstates (fst (vec_run k agents Es st actss))) i = Some (fst (single_run single_step E s acts_i)) /\
-  Forall2 (fun out ref => agrees_at k agents i out (process_transition k agents ref))
-          (snd (vec_run k agents Es st actss)) (snd (single_run single_step E s acts_i)).
-Proof.
-  induction actss as [|actions rest IH]; intros st i E s Hnd HK Hst HF HE Hs; cbn zeta.
-  - cbn. split; auto.
-  - inversion HF as [|? ? Ha HF']; subst. cbn [vec_run single_run map].
-    destruct (vec_step_refines k agents Es st actions i E s Hnd HK Hst Ha HE Hs) as (Wf & H1 & H2).
-    cbn zeta in H1, H2.
-    destruct (vec_step k agents Es st actions) as [st' out]. cbn [fst snd] in *.
-    rewrite worker_refines_single_lemma in H1, H2. cbn [fst snd] in H1, H2.
-    destruct (single_step E s (nth i (transpose_actions agents actions 0%Z) [])) as [s' ref] eqn:Es1.
-    cbn [fst snd] in H1, H2.
-    specialize (IH st' i E s' Hnd HK Wf HF' HE H1). cbn zeta in IH.
-    destruct (vec_run k agents Es st' rest) as [stf outs].
-    destruct (single_run single_step E s' (map (fun actions0 => nth i (transpose_actions agents actions0 0%Z) []) rest))
-      as [sf refs].
-    cbn [fst snd] in *. destruct IH as [I1 I2]. split; auto.
-    constructor; auto.
-    assert (Hk : kind E = k).
-    { rewrite Forall_forall in HK. apply HK. eapply nth_error_In; eauto. }
-    rewrite <- Hk at 2. exact H2.
 Qed.
 
 (* what "process_transition k agents ref" holds: the reference's value for the agents it returned,
@@ -307,7 +98,202 @@ Proof.
   intros key. destruct (lookup a (tinfo ref)); reflexivity.
 Qed.
 
-Lemma vec_init_wf k agents Es : wf_vstate (length Es) k agents (vec_init k agents Es).
+
+(* ================================================================== generic in the worker =========== *)
+Section ParentProofs.
+Context {env state : Type}.
+Variable wstep : env -> list nat -> state -> list Z -> state * trans.
+Variable wreset : env -> list nat -> state -> option Z -> state * (dict obs_t * dict info_t).
+Variable ekind : env -> okind.
+Variable s_init : state.
+(* what the parent relies on: a worker writes an observation for every agent, of the declared sizes,
+   and sends info dicts (Python dicts: no duplicate keys) *)
+Hypothesis W_obs : forall E agents s a, wf_obs (ekind E) agents (tobs (snd (wstep E agents s a))).
+Hypothesis W_info : forall E agents s a, NoDup agents -> info_wf (tinfo (snd (wstep E agents s a))).
+Hypothesis R_obs : forall E agents s seed, wf_obs (ekind E) agents (fst (snd (wreset E agents s seed))).
+Hypothesis R_info : forall E agents s seed, NoDup agents -> info_wf (snd (snd (wreset E agents s seed))).
+
+Lemma g_workers_step_spec agents k n : forall Es i0 ss acts m rs ro mf,
+  Forall (fun E => ekind E = k) Es -> length ss = length Es -> length acts = length Es ->
+  i0 + length Es <= n -> wf_mem n k agents m ->
+  g_workers_step wstep ekind agents i0 Es ss acts m = (rs, ro, mf) ->
+  wf_mem n k agents mf /\ length rs = length Es /\ length ro = length Es /\
+  (forall j E s a, nth_error Es j = Some E -> nth_error ss j = Some s -> nth_error acts j = Some a ->
+     nth_error rs j = Some (fst (wstep E agents s a)) /\
+     nth_error ro j = Some (snd (wstep E agents s a))) /\
+  row_spec n k agents m mf i0 (length Es) (fun j => option_map tobs (nth_error ro j)).
 Proof.
-  unfold vec_init, wf_vstate. cbn. split; [apply map_length | apply create_shared_memory_wf].
+  induction Es as [|E Es IH]; intros i0 ss acts m rs ro mf HK Ls La Hn Hm Hw.
+  - destruct ss; [|discriminate]. cbn in Hw. injection Hw as <- <- <-.
+    split; [auto|]. split; [auto|]. split; [auto|]. split.
+    + intros j E s a H. destruct j; discriminate.
+    + intros a i Ha Hi. cbn [length]. replace (i0 + 0) with i0 by lia.
+      destruct (Nat.leb_spec i0 i), (Nat.ltb_spec i i0); cbn; auto; lia.
+  - destruct ss as [|s ss]; [discriminate|]. destruct acts as [|a0 acts]; [discriminate|].
+    cbn [g_workers_step] in Hw.
+    destruct (wstep E agents s a0) as [s' out] eqn:Ew.
+    destruct (g_workers_step wstep ekind agents (S i0) Es ss acts (write_shm i0 (ekind E) (tobs out) m)) as [[rs' ro'] mf'] eqn:Er.
+    injection Hw as <- <- <-.
+    inversion HK as [|? ? HkE HK']; subst.
+    assert (Hout : wf_obs (ekind E) agents (tobs out)).
+    { pose proof (W_obs E agents s a0) as H. rewrite Ew in H. exact H. }
+    assert (Hm' : wf_mem n (ekind E) agents (write_shm i0 (ekind E) (tobs out) m)).
+    { apply write_shm_wf; auto. cbn in Hn. lia. }
+    cbn [length] in *.
+    destruct (IH (S i0) ss acts _ rs' ro' mf' HK' ltac:(lia) ltac:(lia) ltac:(lia) Hm' Er)
+      as (Wf & L1 & L2 & Hnth & Hrows).
+    split; [auto|]. split; [lia|]. split; [lia|]. split.
+    + intros j E0 s0 a H H0 H1. destruct j as [|j]; cbn [nth_error] in *.
+      * injection H as <-. injection H0 as <-. injection H1 as <-. rewrite Ew. auto.
+      * apply (Hnth j E0 s0 a); auto.
+    + intros a i Ha Hi.
+      rewrite (Hrows a i Ha Hi).
+      rewrite (shm_write_read_lemma i0 i n (ekind E) agents (tobs out) m a); auto; try lia.
+      destruct (Nat.leb_spec (S i0) i); destruct (Nat.ltb_spec i (S i0 + length Es)); cbn [andb].
+      * destruct (Nat.leb_spec i0 i); [|lia]. destruct (Nat.ltb_spec i (i0 + S (length Es))); [|lia]. cbn [andb].
+        replace (i - i0) with (S (i - S i0)) by lia. reflexivity.
+      * destruct (Nat.ltb_spec i (i0 + S (length Es))); [lia|]. rewrite andb_false_r.
+        destruct (Nat.eqb_spec i i0); [lia|]. reflexivity.
+      * destruct (Nat.eqb_spec i i0) as [->|Hne].
+        -- destruct (Nat.leb_spec i0 i0); [|lia]. destruct (Nat.ltb_spec i0 (i0 + S (length Es))); [|lia].
+           cbn [andb]. rewrite Nat.sub_diag. reflexivity.
+        -- destruct (Nat.leb_spec i0 i); [lia|]. reflexivity.
+      * lia.
 Qed.
+
+Lemma g_vec_step_refines k agents Es st actions i E s :
+  NoDup agents -> Forall (fun E => ekind E = k) Es -> wf_vstate (length Es) k agents st -> actions_ok (length Es) actions ->
+  nth_error Es i = Some E -> nth_error (vstates st) i = Some s ->
+  let acts_i := nth i (transpose_actions agents actions 0%Z) [] in
+  wf_vstate (length Es) k agents (fst (g_vec_step wstep ekind k agents Es st actions)) /\
+  nth_error (vstates (fst (g_vec_step wstep ekind k agents Es st actions))) i = Some (fst (wstep E agents s acts_i)) /\
+  agrees_at k agents i (snd (g_vec_step wstep ekind k agents Es st actions)) (snd (wstep E agents s acts_i)).
+Proof.
+  intros Hnd HK [Ls Hm] Ha HE Hs acts_i. unfold g_vec_step.
+  destruct (g_workers_step wstep ekind agents 0 Es (vstates st) (transpose_actions agents actions 0%Z) (vmem st))
+    as [[rs ro] mf] eqn:Ew.
+  assert (Lt : length (transpose_actions agents actions 0%Z) = length Es) by (rewrite transpose_length; exact Ha).
+  destruct (g_workers_step_spec agents k (length Es) Es 0 _ _ _ rs ro mf HK Ls Lt (le_n _) Hm Ew)
+    as (Wf & L1 & L2 & Hnth & Hrows).
+  assert (Hi : i < length Es) by (apply nth_error_Some; congruence).
+  assert (Hacts : nth_error (transpose_actions agents actions 0%Z) i = Some acts_i).
+  { apply nth_error_nth'. lia. }
+  destruct (Hnth i E s acts_i HE Hs Hacts) as [H1 H2].
+  cbn [fst snd vstates vmem]. split; [split; auto|]. split; [exact H1|].
+  assert (Hwf : Forall info_wf (map tinfo ro)).
+  { apply Forall_forall. intros x Hin. apply in_map_iff in Hin as (w & <- & Hw).
+    apply In_nth_error in Hw as [j Hj].
+    assert (Hjl : j < length Es) by (rewrite <- L2; apply nth_error_Some; congruence).
+    destruct (nth_error Es j) as [Ej|] eqn:E1; [|apply nth_error_None in E1; lia].
+    destruct (nth_error (vstates st) j) as [sj|] eqn:E2; [|apply nth_error_None in E2; lia].
+    destruct (nth_error (transpose_actions agents actions 0%Z) j) as [aj|] eqn:E3; [|apply nth_error_None in E3; lia].
+    destruct (Hnth j Ej sj aj E1 E2 E3) as [_ Hq]. rewrite Hj in Hq. injection Hq as ->.
+    apply W_info; auto. }
+  assert (Hinf : nth_error (map tinfo ro) i = Some (tinfo (snd (wstep E agents s acts_i)))).
+  { rewrite nth_error_map, H2. reflexivity. }
+  assert (Hlen : length (map tinfo ro) <= length Es) by (rewrite map_length; lia).
+  intros a Hain. cbn [vobs vrew vterm vtrunc vinfos].
+  split; [|split; [|split; [|split; [|split]]]].
+  6:{ apply (gather_info_spec_lemma (length Es) (map tinfo ro) a 0 i _ Hlen Hwf Hinf). }
+  5:{ intros key. apply (gather_info_spec_lemma (length Es) (map tinfo ro) a key i _ Hlen Hwf Hinf). }
+  - pose proof (Hrows a i Hain Hi) as Hr. unfold row_of in Hr. rewrite Hr.
+    destruct (Nat.leb_spec 0 i); [|lia]. destruct (Nat.ltb_spec i (0 + length Es)); [|lia]. cbn [andb].
+    rewrite Nat.sub_0_r, H2. reflexivity.
+  - apply gather_nth; auto.
+  - apply gather_nth; auto.
+  - apply gather_nth; auto.
+Qed.
+
+Lemma g_workers_reset_spec agents k n seed : forall Es i0 ss m rs ri mf,
+  Forall (fun E => ekind E = k) Es -> length ss = length Es ->
+  i0 + length Es <= n -> wf_mem n k agents m ->
+  g_workers_reset wreset ekind agents i0 Es ss seed m = (rs, ri, mf) ->
+  wf_mem n k agents mf /\ length rs = length Es /\ length ri = length Es /\
+  (forall j E s, nth_error Es j = Some E -> nth_error ss j = Some s ->
+     nth_error rs j = Some (fst (wreset E agents s (seed_of seed (i0 + j)))) /\
+     nth_error ri j = Some (snd (snd (wreset E agents s (seed_of seed (i0 + j)))))) /\
+  row_spec n k agents m mf i0 (length Es)
+    (fun j => match nth_error Es j, nth_error ss j with
+              | Some E, Some s => Some (fst (snd (wreset E agents s (seed_of seed (i0 + j)))))
+              | _, _ => None end).
+Proof.
+  induction Es as [|E Es IH]; intros i0 ss m rs ri mf HK Ls Hn Hm Hw.
+  - destruct ss; [|discriminate]. cbn in Hw. injection Hw as <- <- <-.
+    split; [auto|]. split; [auto|]. split; [auto|]. split.
+    + intros j E s H. destruct j; discriminate.
+    + intros a i Ha Hi. cbn [length]. replace (i0 + 0) with i0 by lia.
+      destruct (Nat.leb_spec i0 i), (Nat.ltb_spec i i0); cbn; auto; lia.
+  - destruct ss as [|s ss]; [discriminate|].
+    cbn [g_workers_reset] in Hw. fold (seed_of seed i0) in Hw.
+    destruct (wreset E agents s (seed_of seed i0)) as [s' [o inf]] eqn:Ew.
+    destruct (g_workers_reset wreset ekind agents (S i0) Es ss seed (write_shm i0 (ekind E) o m)) as [[rs' ri'] mf'] eqn:Er.
+    injection Hw as <- <- <-.
+    inversion HK as [|? ? HkE HK']; subst.
+    assert (Hout : wf_obs (ekind E) agents o).
+    { pose proof (R_obs E agents s (seed_of seed i0)) as H. rewrite Ew in H. exact H. }
+    assert (Hm' : wf_mem n (ekind E) agents (write_shm i0 (ekind E) o m)).
+    { apply write_shm_wf; auto. cbn in Hn. lia. }
+    cbn [length] in *.
+    destruct (IH (S i0) ss _ rs' ri' mf' HK' ltac:(lia) ltac:(lia) Hm' Er)
+      as (Wf & L1 & L2 & Hnth & Hrows).
+    split; [auto|]. split; [lia|]. split; [lia|]. split.
+    + intros j E0 s0 H H0. destruct j as [|j]; cbn [nth_error] in *.
+      * injection H as <-. injection H0 as <-. rewrite Nat.add_0_r, Ew. auto.
+      * replace (i0 + S j) with (S i0 + j) by lia. apply (Hnth j E0 s0); auto.
+    + intros a i Ha Hi.
+      rewrite (Hrows a i Ha Hi).
+      rewrite (shm_write_read_lemma i0 i n (ekind E) agents o m a); auto; try lia.
+      destruct (Nat.leb_spec (S i0) i); destruct (Nat.ltb_spec i (S i0 + length Es)); cbn [andb].
+      * destruct (Nat.leb_spec i0 i); [|lia]. destruct (Nat.ltb_spec i (i0 + S (length Es))); [|lia]. cbn [andb].
+        replace (i - i0) with (S (i - S i0)) by lia. cbn [nth_error].
+        replace (i0 + S (i - S i0)) with (S i0 + (i - S i0)) by lia. reflexivity.
+      * destruct (Nat.ltb_spec i (i0 + S (length Es))); [lia|]. rewrite andb_false_r.
+        destruct (Nat.eqb_spec i i0); [lia|]. reflexivity.
+      * destruct (Nat.eqb_spec i i0) as [->|Hne].
+        -- destruct (Nat.leb_spec i0 i0); [|lia]. destruct (Nat.ltb_spec i0 (i0 + S (length Es))); [|lia].
+           cbn [andb]. rewrite Nat.sub_diag. cbn [nth_error]. rewrite Nat.add_0_r, Ew. reflexivity.
+        -- destruct (Nat.leb_spec i0 i); [lia|]. reflexivity.
+      * lia.
+Qed.
+
+Theorem g_vec_reset_refines k agents Es st seed i E s :
+  NoDup agents -> Forall (fun E => ekind E = k) Es -> wf_vstate (length Es) k agents st ->
+  nth_error Es i = Some E -> nth_error (vstates st) i = Some s ->
+  let r := g_vec_reset wreset ekind k agents Es st seed in
+  let w := wreset E agents s (seed_of seed i) in
+  wf_vstate (length Es) k agents (fst r) /\
+  nth_error (vstates (fst r)) i = Some (fst w) /\
+  forall a, In a agents ->
+    obs_row i k (get a (fst (snd r)) []) = get a (fst (snd w)) [] /\
+    (forall key, info_at (snd (snd r)) a key i = info_in (snd (snd w)) a key) /\
+    mask_at (snd (snd r)) a i = has_agent (snd (snd w)) a.
+Proof.
+  intros Hnd HK [Ls Hm] HE Hs. cbn zeta. unfold g_vec_reset.
+  destruct (g_workers_reset wreset ekind agents 0 Es (vstates st) seed (vmem st)) as [[rs ri] mf] eqn:Ew.
+  destruct (g_workers_reset_spec agents k (length Es) seed Es 0 _ _ rs ri mf HK Ls (le_n _) Hm Ew)
+    as (Wf & L1 & L2 & Hnth & Hrows).
+  assert (Hi : i < length Es) by (apply nth_error_Some; congruence).
+  destruct (Hnth i E s HE Hs) as [H1 H2]. cbn [plus] in H1, H2.
+  cbn [fst snd vstates vmem]. split; [split; auto|]. split; [exact H1|].
+  assert (Hwf : Forall info_wf ri).
+  { apply Forall_forall. intros x Hin. apply In_nth_error in Hin as [j Hj].
+    assert (Hjl : j < length Es) by (rewrite <- L2; apply nth_error_Some; congruence).
+    destruct (nth_error Es j) as [Ej|] eqn:E1; [|apply nth_error_None in E1; lia].
+    destruct (nth_error (vstates st) j) as [sj|] eqn:E2; [|apply nth_error_None in E2; lia].
+    destruct (Hnth j Ej sj E1 E2) as [_ Hq]. rewrite Hj in Hq. injection Hq as ->.
+    apply R_info; auto. }
+  assert (Hlen : length ri <= length Es) by lia.
+  intros a Ha. split; [|split].
+  - pose proof (Hrows a i Ha Hi) as Hr. unfold row_of in Hr. rewrite Hr.
+    destruct (Nat.leb_spec 0 i); [|lia]. destruct (Nat.ltb_spec i (0 + length Es)); [|lia]. cbn [andb].
+    rewrite Nat.sub_0_r, HE, Hs. reflexivity.
+  - intros key. apply (gather_info_spec_lemma (length Es) ri a key i _ Hlen Hwf H2).
+  - apply (gather_info_spec_lemma (length Es) ri a 0 i _ Hlen Hwf H2).
+Qed.
+
+
+Lemma g_vec_init_wf k agents (Es : list env) : wf_vstate (length Es) k agents (g_vec_init s_init k agents Es).
+Proof.
+  unfold g_vec_init, wf_vstate. cbn. split; [apply map_length | apply create_shared_memory_wf].
+Qed.
+End ParentProofs.
